@@ -7,6 +7,7 @@ import Masscanned.Proofs.C11.Feed
 import Masscanned.Proofs.RpcFix.SegFirst
 import Masscanned.Thm.C13
 import Masscanned.Thm.C16
+import Masscanned.Proofs.C01.Http
 open Masscanned
 namespace Masscanned.C11
 open Aux
@@ -313,13 +314,18 @@ theorem http_sig (m : Bytes) (hm : m ∈ Spec.httpMethods) :
     subst h1 h2
     exact ⟨rfl, by decide⟩
 
+/-- the parser state STORED after the stream `m ++ " /" ++ x`: the initial one once the request has been
+    answered (`*pstate = ProtocolState::new()` in `http::repl`) -/
+def httpStored (m x : Bytes) : HttpSt :=
+  if httpFold .space (32 :: 47 :: x) = .content then {}
+  else { state := httpFold .space (32 :: 47 :: x), smackState := C13.Aux.methodRow (m.map Spec.lowerB), smackId := 0 }
+
 /-- control block of an HTTP flow after the stream `m ++ " /" ++ x` -/
 def httpBlock (m x : Bytes) : Tcb :=
   { smackState := sigState (m ++ [32, 47]), protoId := PROTO_HTTP,
-    protoState := some (.http { state := httpFold .space (32 :: 47 :: x),
-                                smackState := C13.Aux.methodRow (m.map Spec.lowerB), smackId := 0 }) }
+    protoState := some (.http (httpStored m x)) }
 
-/-- reply to the segment that ends the stream `m ++ " /" ++ x` -/
+/-- reply to the segment that ends the stream `m ++ " /" ++ x` (as long as nothing has been answered) -/
 def httpOut (env : Env) (x : Bytes) : Option Bytes :=
   if httpFold .space (32 :: 47 :: x) = .content then some (httpReplyBytes env) else none
 
@@ -329,22 +335,34 @@ theorem http_fresh (cfg : Cfg) (env : Env) (ci : ClientInfo) (hc : HasCookie ci)
   rw [protoRepl_unidentified cfg env ci hc {} rfl _ _ _ _ (sig_append (http_sig m hm) x),
     protoHandle_http_fresh cfg env ci _ rfl]
   have e : (m ++ [32, 47]) ++ x = m ++ (32 :: 47 :: x) := by simp
-  unfold httpRepl
-  rw [e, C13.verb_phase m hm]
-  rfl
+  rw [e, C13.httpRepl_of_parse (C13.verb_phase m hm _)]
+  unfold httpBlock httpStored httpOut
+  by_cases hcnt : httpFold .space (32 :: 47 :: x) = .content
+  · simp only [hcnt, if_true]
+  · simp only [hcnt, if_false]
 
-theorem http_step (cfg : Cfg) (env : Env) (ci : ClientInfo) (hc : HasCookie ci) (m x d : Bytes) :
+/-- a further segment while nothing has been answered yet -/
+theorem http_step (cfg : Cfg) (env : Env) (ci : ClientInfo) (hc : HasCookie ci) (m x d : Bytes)
+    (hx : httpOut env x = none) :
     protoRepl cfg env ci (some (httpBlock m x)) d =
       .ok (ci, some (httpBlock m (x ++ d)), httpOut env (x ++ d)) := by
+  have hnc : httpFold .space (32 :: 47 :: x) ≠ .content := by
+    intro h; unfold httpOut at hx; rw [if_pos h] at hx; cases hx
   rw [protoRepl_identified cfg env ci hc _ (Nat.succ_ne_zero 0)]
   show protoHandle cfg env PROTO_HTTP ci (some (httpBlock m x)) d = _
   rw [protoHandle_http_cont cfg env ci _ _ rfl]
-  unfold httpRepl
-  rw [C13.http_parse_past_verb _ (C13.http_fold_past_verb .space _ ⟨by decide, by decide⟩)]
-  simp only [httpBlock, httpOut]
+  have hst : httpStored m x = (⟨httpFold .space (32 :: 47 :: x),
+      C13.Aux.methodRow (m.map Spec.lowerB), 0⟩ : HttpSt) := by
+    unfold httpStored; rw [if_neg hnc]
+  rw [hst, C13.httpRepl_of_parse
+    (C13.http_parse_past_verb _ (C13.http_fold_past_verb .space _ ⟨by decide, by decide⟩) d)]
   have e : httpFold (httpFold .space (32 :: 47 :: x)) d = httpFold .space (32 :: 47 :: (x ++ d)) := by
     rw [← C13.http_fold_append]; rfl
-  rw [e]
+  unfold httpBlock httpStored httpOut
+  simp only [e]
+  by_cases hcnt : httpFold .space (32 :: 47 :: (x ++ d)) = .content
+  · simp only [hcnt, if_true]
+  · simp only [hcnt, if_false]
 
 theorem http_mono (env : Env) (x y : Bytes) (h : httpOut env x ≠ none) : httpOut env (x ++ y) = httpOut env x := by
   unfold httpOut at h ⊢
@@ -354,6 +372,34 @@ theorem http_mono (env : Env) (x y : Bytes) (h : httpOut env x ≠ none) : httpO
       rw [e, C13.http_fold_append, hcnt, C13.Aux.fold_content]
     rw [if_pos hcnt, if_pos this]
   · rw [if_neg hcnt] at h; exact absurd rfl h
+
+/-- invariant of the control block of a flow identified as HTTP: the stored parser state is one the
+    parser can have stored (`C01.HttpInv`) -/
+def HttpBlockInv (t : Tcb) : Prop :=
+  t.protoId = PROTO_HTTP ∧ ∃ s, t.protoState = some (.http s) ∧ C01.HttpInv s
+
+theorem httpBlock_inv (m x : Bytes) : HttpBlockInv (httpBlock m x) := by
+  refine ⟨rfl, _, rfl, ?_⟩
+  unfold httpStored
+  split
+  · exact C01.httpInv_init
+  · intro hsv
+    have := C13.http_fold_past_verb .space (32 :: 47 :: x) ⟨by decide, by decide⟩
+    rcases hsv with e | e
+    · exact absurd e this.1
+    · exact absurd e this.2
+
+/-- whatever has been stored, `proto::repl` does not panic on a further segment (the flow stays HTTP,
+    the stored state stays within the invariant of the parser) -/
+theorem http_total (cfg : Cfg) (env : Env) (ci : ClientInfo) (hc : HasCookie ci) (t : Tcb) (d : Bytes)
+    (ht : HttpBlockInv t) :
+    ∃ ci' t' r, protoRepl cfg env ci (some t) d = .ok (ci', some t', r) ∧ HttpBlockInv t' := by
+  obtain ⟨hid, s, hs, hinv⟩ := ht
+  obtain ⟨s', r, hr, hinv', _⟩ := C01.httpRepl_ok env s d hinv
+  refine ⟨ci, { t with protoState := some (.http s') }, r, ?_, hid, s', rfl, hinv'⟩
+  rw [protoRepl_identified cfg env ci hc t (by rw [hid]; decide), hid,
+    protoHandle_http_cont cfg env ci t s hs, hr]
+  simp only [hid]
 
 /-! ### ONC-RPC over TCP -/
 
